@@ -111,9 +111,47 @@ func init() {
 					res.Count("schedules_of_internal_steps", r.Evaluations)
 				}
 			}
+			// (c) real clock: unsubscribe of a stalled watcher during the publisher's
+			// timed send, offset swept in 10 ms steps (see c17r_test.go); one child
+			// process per offset, because the failure kills the process
+			for off := 0; off <= 300; off += 10 {
+				if (off/10)%env.NShards != env.Shard {
+					continue
+				}
+				if env.Expired() {
+					res.Incomplete = append(res.Incomplete, "c17r/offsets")
+					break
+				}
+				Progress.Add(1)
+				v := c17RealTime(off)
+				res.Evaluations++
+				res.Nontrivial++
+				res.Outcome("c17r|" + firstWordsOf(v, 3))
+				if v != "" {
+					raw, _ := json.Marshal(map[string]int{"realtime_offset_ms": off})
+					res.AddFound(Found{Property: "C17", Kind: "watch-realtime", Sig: "watch-realtime", Detail: fmt.Sprintf("unsubscribe of the stalled watcher %d ms after the second publish: %s", off, v), Case: raw,
+						Core: "watch-realtime|unsubscribe-of-stalled-watcher-during-timed-send|" + stripDigits(firstWordsOf(v, 8))})
+				}
+			}
+			if env.Shard == 0 {
+				res.Completed = append(res.Completed, "c17r/offsets-0..300ms-step-10")
+			}
 			return res
 		},
 		Reproduce: func(f *Found) (bool, error) {
+			if strings.Contains(string(f.Case), "realtime_offset_ms") {
+				var c map[string]int
+				if err := json.Unmarshal(f.Case, &c); err != nil {
+					return false, err
+				}
+				// the window is hit or missed depending on the ticker's phase: try the neighbourhood too
+				for _, d := range []int{0, 10, -10, 20, -20, 30, 40, 50} {
+					if o := c["realtime_offset_ms"] + d; o >= 0 && c17RealTime(o) != "" {
+						return true, nil
+					}
+				}
+				return false, nil
+			}
 			out := filepath.Join(os.TempDir(), fmt.Sprintf("c17-repro-%d.json", os.Getpid()))
 			defer os.Remove(out)
 			test := "TestC17"
@@ -127,4 +165,39 @@ func init() {
 			return len(r.Found) > 0, nil
 		},
 	})
+}
+
+// c17RealTime runs TestC17R for one offset in a child process and returns the
+// verdict ("" = fine).
+func c17RealTime(offsetMs int) string {
+	cmd := exec.Command(c17Binary(), "-test.run", "^TestC17R$", "-test.timeout", "120s", "-offset", fmt.Sprint(offsetMs))
+	b, err := cmd.CombinedOutput()
+	text := string(b)
+	if err == nil && strings.Contains(text, "C17R-OK") {
+		return ""
+	}
+	if i := strings.Index(text, "panic: "); i >= 0 {
+		return firstLineOf(text[i:])
+	}
+	if i := strings.Index(text, "fatal error: "); i >= 0 {
+		return firstLineOf(text[i:])
+	}
+	if i := strings.Index(text, "C17R-VERDICT: "); i >= 0 {
+		return firstLineOf(text[i+len("C17R-VERDICT: "):])
+	}
+	if err != nil {
+		return "child failed: " + firstLineOf(truncateStr(text, 300))
+	}
+	return ""
+}
+
+func firstWordsOf(s string, n int) string {
+	if s == "" {
+		return "ok"
+	}
+	f := strings.Fields(s)
+	if len(f) > n {
+		f = f[:n]
+	}
+	return strings.Join(f, " ")
 }
